@@ -18,6 +18,10 @@
   * `C09_parser_layout`: the instance at the parser model;
   * `C09_prelexed_locations_irrelevant`: a concrete bisimulation (`rbnd_bisim`): pre-lexed
     token streams that differ only in the locations of their tokens.
+  * `C09_layout_in_buffer_invisible`: WHITESPACE, NEWLINE and comment tokens waiting in the
+    line buffer are invisible to `token_eof_ok`: stream states with the same lexer state and the
+    same significant tokens buffered return the same token and stay so related; hence
+    (`C09_yields_respects_layout`) they yield the same token sequences.
   What remains carried by the correspondence `parse[relayout]` and the oracle `relayout`: that
   two TEXTS with the same significant tokens give bisimilar lexer-backed streams (the lexer
   side of the statement).
@@ -25,6 +29,7 @@
 import CxxModel.TokStream
 import CxxModel.Tables
 import CxxModel.Theorems.Layout
+import CxxModel.Theorems.SigEq
 import CxxModel.Parser.Decl
 namespace Cxx
 
@@ -90,5 +95,15 @@ example : RBnd
                  { type := "NAME", value := "x", loc := { filename := some "f.h", lineno := 9 } },
                  { type := ";", value := ";", loc := { filename := some "f.h", lineno := 9 } }]) :=
   ⟨rfl, rfl, .cons ⟨rfl, rfl, rfl⟩ (.cons ⟨rfl, rfl, rfl⟩ (.cons ⟨rfl, rfl, rfl⟩ .nil))⟩
+
+
+theorem C09_layout_in_buffer_invisible (cfg : LexCfg) (b b' : Buf) (h : SigEq b b') :
+    (∃ e, tokenEofOk cfg b = .error e ∧ tokenEofOk cfg b' = .error e) ∨
+    (∃ o b1 b1', tokenEofOk cfg b = .ok (o, b1) ∧ tokenEofOk cfg b' = .ok (o, b1') ∧ SigEq b1 b1') :=
+  tokenEofOk_sigEq cfg h
+
+theorem C09_yields_respects_layout (cfg : LexCfg) (ts : List Tok) (b b' b1 : Buf) (hy : Yields cfg b ts b1) (h : SigEq b b') :
+    ∃ b1', Yields cfg b' ts b1' ∧ SigEq b1 b1' :=
+  Yields.sigEq hy h
 
 end Cxx
